@@ -2,7 +2,7 @@
 # usage: selftest/mut.sh <Cxx> <file-relative-to-repo> <python-replace-old> <python-replace-new>   (scratch copy, removed afterwards)
 ID="$1"; F="$2"; OLD="$3"; NEW="$4"
 D=$(mktemp -d /var/tmp/mut.XXXXXX)
-cp -r /repo/. "$D/" && rm -rf "$D/.git"
+rsync -a --exclude .git /repo/ "$D/"
 python3 - "$D/$F" "$OLD" "$NEW" <<'PY'
 import sys
 p,old,new=sys.argv[1:4]; s=open(p).read()
